@@ -316,7 +316,7 @@ def task_params(arg):
     counters = {"evaluations": 0, "nontrivial": 0, "decisions": 0, "executions": 0}
     viol, seen, add = _adder()
     menu = [(name, v) for name, vals in PARAMS[ens] for v in vals] + [(None, None)]
-    pol = Policy(uniform_q=(0.3, 0.8), angular_q=None, product_limit=0, branch_calls=0)
+    pol = Policy(uniform_q=(0.2, 0.8), angular_q=None, product_limit=0, branch_calls=1)
 
     def run(ch):
         sysm = build(spec)
@@ -328,6 +328,7 @@ def task_params(arg):
             st.criteria = RecordingCriteria(st.criteria, sink)
         obs = []
         for _ in range(depth):
+            ch.mark()
             i = ch.pick("user", len(menu), None, [m[0] for m in menu])
             name, val = menu[i]
             if name == "exchange_atoms":
